@@ -113,7 +113,7 @@ void run(Ctx &ctx, const std::string &w) {
                 const bool got = h.hasContigousContentRange(Range<int64_t>(base + o.rel, base + o.rel + o.len));
                 ++nH;
                 bool anyAbsent = false, anyMaybe = false;
-                for (int64_t i = o.rel; i < o.rel + o.len - 1; ++i) { if (m.state[i] == Absent) anyAbsent = true; else if (m.state[i] == Maybe) anyMaybe = true; }
+                for (int64_t i = o.rel; i < o.rel + o.len; ++i) { if (m.state[i] == Absent) anyAbsent = true; else if (m.state[i] == Maybe) anyMaybe = true; }
                 if (anyAbsent) { if (got) fail("contig:false-positive", "hasContigousContentRange() is true but a byte in the range is not in memory"); }
                 else if (anyMaybe) ++greyH; // released bytes may legitimately be kept or not
                 else if (!got) fail("contig:false-negative", "hasContigousContentRange() is false but every byte of the range was written and not released");
